@@ -71,7 +71,7 @@ CHECKS = {
         technique="Lean 4 proof (prefix monotonicity of the event stream by induction) + exhaustive truncation offsets of generated files, model vs code",
         text="Lean theorems C15_prefix_events / C15_boundary_exact: for every body and every cut, the events of the prefix are a prefix of the complete file's events up to one last event from the cut token, "
              "exactly a prefix at line boundaries; the parser is total. Every truncation offset of generated bodies is loaded (under catch_unwind) and the C15 relation is evaluated on the real loads; the Lean model "
-             "predicts ok / err / panic for each cut and must agree.",
+             "predicts ok / err / panic for each cut and must agree. At line-boundary cuts the loaded waveform itself must equal the denotation of the lines present (token interpreter of C01 + Spec.run on the prefix).",
         design_ref="DESIGN.md section 5 / C15",
         note="`never panics` is false for the current code (known finding F7): the model reproduces the panics and the check verifies the implementation panics exactly there. The lift from events to the loaded "
              "waveform relies on the store correspondence (C04). Hangs cannot occur in the model (structural recursion); a hang of the real loader would stall the harness and be reported as reply-count mismatch.",
@@ -99,13 +99,14 @@ CHECKS = {
     "C09": dict(
         technique="Lean 4 proof (identifier codes ~ signals, bit-range packing, keyword tables, flattening rule) + differential run of generated headers against the byte-level Lean model of the header reader and an abstract declaration interpreter",
         text="Lean theorems C09_share_iff (variables share a signal exactly when they share an identifier code: id_to_int is injective and the hashed map numbers distinct codes distinctly, for every declaration list), "
+             "C09_range_parse / C09_single_parse (for EVERY base name, any spaces before / after the bracket and any decimal bounds with optional minus sign, extract_suffix_index returns the name before the range and VarIndex::new(msb, lsb)), "
              "C09_index_roundtrip / C09_index_single (VarIndex packing returns the declared bounds, negative ones included, whenever msb-lsb fits an i32), C09_width_zero, C09_keywords_unique (generated tables), "
              "C09_scope_flatten, C09_date_verbatim. The composition text -> tree is differential: headers are generated twice, as an abstract declaration list and as text (random white space incl. tabs / CRLF, "
              "glued / split timescale, 0..3 bracket groups, negative and spaced ranges, widths 0..4096, dense / sparse / long / wrapping id codes, GTKWave-nvc attributes 02/03/04, re-opened and empty scopes, both option values); "
              "the real read_header, the byte-level Lean model (read_command, find_tokens, parse_name, extract_suffix_index, attribute stack, id-map switch, pointer-level builder) and the declaration list interpreted on the "
              "abstract hierarchy of C08 must give the same tree, meta data and header length. A malformed stream checks err / panic agreement.",
         design_ref="DESIGN.md section 5 / C09",
-        note="Name / range parsing of arbitrary text is not proved correct in general (closed examples + differential only). The generator decides what a text 'declares': a trailing [..] group is the bit range, "
+        note="The splitting of additional bracket groups into array scopes (parse_name) is not proved in general (closed examples + differential); the trailing bit range is (C09_range_parse). The generator decides what a text 'declares': a trailing [..] group is the bit range, "
              "white space inside a name is spaces only. Fix F25 (find_tokens split on ' ' only) is a prerequisite. Trusted: str::parse, HashMap.",
     ),
     "C11": dict(
